@@ -38,6 +38,7 @@ type Run struct {
 	RawLog   []byte
 	WallMs   float64
 	NoLog    bool
+	Progress []byte // rig-specific progress marker file (<log>.progress)
 }
 
 func (r *Run) StdoutText() string {
@@ -178,7 +179,12 @@ func (e *Env) RunBin(bin string, worker int, s *scn.Scenario) *Run {
 	must(os.WriteFile(filepath.Join(dir, "scenario.json"), sb, 0644))
 	logPath := filepath.Join(dir, "log.jsonl")
 	os.Remove(logPath)
-	ctx, cancel := context.WithTimeout(context.Background(), watchdog)
+	os.Remove(logPath + ".progress")
+	wd := watchdog
+	if long, _ := s.Rig["long"].(bool); long {
+		wd = 30 * time.Minute
+	}
+	ctx, cancel := context.WithTimeout(context.Background(), wd)
 	defer cancel()
 	cmd := exec.CommandContext(ctx, bin, s.Args...)
 	cmd.Dir = dir
@@ -212,6 +218,7 @@ func (e *Env) RunBin(bin string, worker int, s *scn.Scenario) *Run {
 	r.Stdout = deframe(so.Bytes())
 	r.Stderr = append(r.Stderr, deframe(se.Bytes())...)
 	r.RawLog, _ = os.ReadFile(logPath)
+	r.Progress, _ = os.ReadFile(logPath + ".progress")
 	if len(r.RawLog) == 0 {
 		r.NoLog = true
 	}
